@@ -1,31 +1,48 @@
 #!/usr/bin/env python3
-import json, os
-res = {}
-for f in ('/var/tmp/seeded_results.json', '/var/tmp/seeded_results2.json', '/var/tmp/seeded_results3.json', '/var/tmp/seeded_results4.json', '/var/tmp/seeded_results5.json', '/var/tmp/seeded_results6.json', '/var/tmp/seeded_results6b.json'):
-    if os.path.exists(f): res.update(json.load(open(f)))
-ver = {}
-for f in ('/var/tmp/seeded_verify1.json', '/var/tmp/seeded_verify2.json', '/var/tmp/seeded_verify3.json', '/var/tmp/seeded_verify4.json', '/var/tmp/seeded_verify5.json', '/var/tmp/seeded_verify6.json'):
-    if os.path.exists(f): ver.update(json.load(open(f)))
+"""seeded_readme.py [--verify f.json ...] [--results f.json ...] [--rerun f.json ...]
+merges verification / check results into seeded/<id>/meta.json, then rebuilds seeded/README.md from the metas alone
+(--rerun: results of a later run, after the checks were strengthened; kept next to the first result)"""
+import json, os, sys
+ver, res, rerun = {}, {}, {}
+cur = None
+for a in sys.argv[1:]:
+    if a in ("--verify", "--results", "--rerun"):
+        cur = {"--verify": ver, "--results": res, "--rerun": rerun}[a]
+    elif os.path.exists(a):
+        cur.update(json.load(open(a)))
 rows = []
+n = {"caught": 0, "MISSED": 0, "undecided": 0, "not run": 0}
 for d in sorted(os.listdir('/verif/seeded')):
     p = f'/verif/seeded/{d}'
-    if not os.path.isdir(p) or not os.path.exists(p + '/meta.json'): continue
+    if not os.path.isdir(p) or not os.path.exists(p + '/meta.json'):
+        continue
     m = json.load(open(p + '/meta.json'))
-    r, v = res.get(d), ver.get(d)
+    v = ver.get(d)
     if v:
         m['confirmed_by_us'] = {'patch_applies': v['applies'], 'suite_with_change': v['suite_with_change'],
                                 'demo_passes_on_clean_tree': v['demo_passes_clean'], 'demo_passes_with_change': v['demo_passes_with_change'],
                                 'how': 'dev/verify_seeded.py in a scratch worktree /tmp/wt_verify (removed afterwards)'}
-    if isinstance(r, dict):
-        m['check_result'] = {'cmd': f"./check {r['property']} --tier quick", 'exit': r['exit'], 'violations': r['violations'],
-                             'first_violation': (r['first'] or [''])[0], 'undecided': r['undecided'], 'wall_s': r['wall']}
+    for src, key in ((res, 'check_result'), (rerun, 'check_result_after_strengthening')):
+        r = src.get(d)
+        if isinstance(r, dict):
+            m[key] = {'cmd': f"./check {r['property']} --tier quick", 'exit': r['exit'], 'violations': r['violations'],
+                      'first_violation': (r['first'] or [''])[0], 'undecided': r['undecided'], 'wall_s': r['wall']}
     json.dump(m, open(p + '/meta.json', 'w'), indent=1)
-    caught = 'caught' if isinstance(r, dict) and r['exit'] == 1 else ('MISSED' if isinstance(r, dict) and r['exit'] == 0 else ('undecided' if isinstance(r, dict) else 'not run'))
-    ob = ''
-    if isinstance(r, dict) and r['first']:
-        ob = r['first'][0].split('obligation=')[-1]
-    rows.append(f"| {d} | {m['property']} | {m['what'][:150].replace('|','/')} | {caught} | `{ob[:110]}` |")
+    r = m.get('check_result_after_strengthening') or m.get('check_result')
+    if r:
+        caught = {1: 'caught', 0: 'MISSED'}.get(r['exit'], 'undecided')
+    else:
+        caught = 'not run'
+    n[caught] += 1
+    first = m.get('check_result')
+    note = ''
+    if m.get('check_result_after_strengthening') and first and first['exit'] != 1:
+        note = f" (first run: {({0: 'missed', 2: 'undecided'}).get(first['exit'], first['exit'])}; checks strengthened since)"
+    ob = (r or {}).get('first_violation', '').split('obligation=')[-1]
+    prop = (r or {}).get('cmd', '').split()[1] if r else m['property']
+    rows.append(f"| {d} | {m['property']}{'' if prop == m['property'] else ' (checked under ' + prop + ')'} | {m['what'][:150].replace('|', '/')} | {caught}{note} | `{ob[:110]}` |")
 open('/verif/seeded/README.md', 'w').write("# Seeded changes\n\nWritten by independent sub-agents that saw only the property text and a scratch worktree; each confirmed by us "
-  "(suite 68/68 with the change, demo fails with it and passes without). `check` = exit status of the owning property's quick check with the change applied to /repo.\n\n"
+  "(suite 68/68 with the change, demo fails with it and passes without). `check` = exit status of the owning property's quick check with the change applied to a copy of /repo's HEAD.\n\n"
+  f"Totals: {n['caught']} caught, {n['undecided']} undecided (exit 2), {n['MISSED']} missed, {n['not run']} not run.\n\n"
   "| id | property | change | check | first refuted obligation |\n|---|---|---|---|---|\n" + "\n".join(rows) + "\n")
-print("\n".join(rows))
+print(n)
